@@ -307,6 +307,32 @@ class Inliner:
         return e
 
     @staticmethod
+    def _comp_to_loop(s: ast.stmt, resolve) -> list[ast.stmt]:
+        """`x = [.. helper(..) .. for t in it]` (one generator, no filter) where the helper needs statement-level inlining
+        becomes `x = []` + an append loop, so that the helper's body can be inlined into the loop."""
+        if not (isinstance(s, ast.Assign) and len(s.targets) == 1 and isinstance(s.targets[0], ast.Name) and isinstance(s.value, ast.ListComp)
+                and len(s.value.generators) == 1 and not s.value.generators[0].ifs and not s.value.generators[0].is_async):
+            return [s]
+        needs = False
+        for c in ast.walk(s.value.elt):
+            if isinstance(c, ast.Call):
+                h, _ = resolve(c)
+                if h is not None:
+                    body = _doc_stripped(h.body)
+                    if not (len(body) == 1 and isinstance(body[0], ast.Return)):
+                        needs = True
+        if not needs:
+            return [s]
+        g = s.value.generators[0]
+        name = s.targets[0].id
+        init = ast.copy_location(ast.Assign(targets=[ast.Name(id=name, ctx=ast.Store())], value=ast.List(elts=[], ctx=ast.Load())), s)
+        app = ast.Expr(value=ast.Call(func=ast.Attribute(value=ast.Name(id=name, ctx=ast.Load()), attr="append", ctx=ast.Load()), args=[s.value.elt], keywords=[]))
+        loop = ast.copy_location(ast.For(target=g.target, iter=g.iter, body=[app], orelse=[]), s)
+        ast.fix_missing_locations(init)
+        ast.fix_missing_locations(loop)
+        return [init, loop]
+
+    @staticmethod
     def _hoistable(root: ast.AST, resolve) -> ast.Call | None:
         """A helper call inside `root` that is evaluated unconditionally and before anything with an effect: only reached through
         comparison / arithmetic / call-argument / attribute / subscript positions, with every operand evaluated earlier being simple."""
@@ -373,6 +399,7 @@ class Inliner:
         def do_block(block: list[ast.stmt]) -> list[ast.stmt]:
             nonlocal changed
             out: list[ast.stmt] = []
+            block = [x for s in block for x in self._comp_to_loop(s, resolve)]
             for s in block:
                 if isinstance(s, (ast.FunctionDef, ast.AsyncFunctionDef, ast.ClassDef)):
                     out.append(s)
@@ -465,8 +492,30 @@ class Inliner:
                     any_change = True
             if not any_change:
                 break
+        self._fold_temps()
         self._drop_unreferenced()
         return self.tree
+
+    def _fold_temps(self) -> None:
+        """`__hN = e` immediately followed by the only statement that mentions `__hN` (once): the temporary is substituted back."""
+        for node in ast.walk(self.tree):
+            for fld in ("body", "orelse", "finalbody"):
+                b = getattr(node, fld, None)
+                if not (isinstance(b, list) and b and isinstance(b[0], ast.stmt)):
+                    continue
+                i = 0
+                while i + 1 < len(b):
+                    s, nxt = b[i], b[i + 1]
+                    if isinstance(s, ast.Assign) and len(s.targets) == 1 and isinstance(s.targets[0], ast.Name) and s.targets[0].id.startswith("__h") \
+                            and not isinstance(nxt, (ast.For, ast.While, ast.If, ast.With, ast.Try, ast.FunctionDef, ast.Match)):
+                        name = s.targets[0].id
+                        uses = [n for n in ast.walk(nxt) if isinstance(n, ast.Name) and n.id == name]
+                        total = sum(1 for n in ast.walk(self.tree) if isinstance(n, ast.Name) and n.id == name)
+                        if len(uses) == 1 and total == 2 and isinstance(uses[0].ctx, ast.Load):
+                            _ReplaceNode(uses[0], s.value).visit(nxt)
+                            del b[i]
+                            continue
+                    i += 1
 
     def _drop_unreferenced(self) -> None:
         """Remove new private helpers (module level, methods, closures) that nothing refers to any more."""
